@@ -12,6 +12,7 @@ import (
 	"sort"
 	"strconv"
 	"strings"
+	"sync"
 
 	"golang.org/x/tools/go/packages"
 	"golang.org/x/tools/go/ssa"
@@ -35,6 +36,7 @@ type Harness struct {
 	Expect        string // "" or "violation" (mutation self-tests)
 	StrLen        int    // string length bound of the bounded (stage B) encoding
 	StageATimeout int    // ms: limit for the unbounded SMT-string attempt
+	Upgrade       bool   // try to upgrade bounded unsat verdicts of obligations to unbounded ones
 	File          string
 }
 
@@ -64,6 +66,8 @@ type World struct {
 	overlayMap map[string]string // virtual -> real path
 	initCache  map[*ssa.Global][]ssa.Instruction
 	regexCache map[string]*Term
+	qcache     sync.Map
+	crossB     bool // also race cvc5 on bounded-stage queries
 }
 
 func (w *World) knownFor(h *Harness, obligation string) []KnownFinding {
@@ -243,6 +247,8 @@ func (w *World) load() error {
 								h.StrLen = n
 							case "stagea":
 								h.StageATimeout = n
+							case "upgrade":
+								h.Upgrade = true
 							}
 						}
 					}
